@@ -8,7 +8,7 @@ import re
 from ..cfg import build_cfg, calls_in, node_calls
 from ..core import Ctx, property_info, rule, share
 from ..model import AnalysisError, FuncInfo, const_str, walk_no_nested
-from ..q import Dispatch, dict_literals, A, asrc, enum_members, is_self_attr, kwarg, stores, unparse
+from ..q import Dispatch, L, dict_literals, flow_conditions, flows, A, asrc, enum_members, is_self_attr, kwarg, stores, unparse
 from .c12 import renumbering_is_last
 
 FIL = "xsdata.formats.dataclass.filters:Filters"
@@ -59,12 +59,9 @@ def _restriction_fields(ctx: Ctx) -> list[str]:
 
 
 def _asdict_skips(ctx: Ctx) -> set[str]:
-    ad = ctx.repo.func("xsdata.codegen.models:Restrictions.asdict")
-    skip: set[str] = set()
-    for node in walk_no_nested(ad.node):
-        if isinstance(node, ast.Compare) and isinstance(node.ops[-1], ast.In) and isinstance(node.comparators[-1], ast.Tuple):
-            skip |= {e.value for e in node.comparators[-1].elts if isinstance(e, ast.Constant) and isinstance(e.value, str)}
-    return skip
+    from .c12 import asdict_skipped_keys
+
+    return asdict_skipped_keys(ctx)
 
 
 @rule("C02.R1")
@@ -251,7 +248,18 @@ def attribute_namespace_agreement(ctx: Ctx) -> None:
     ctx.ob("generator: an attribute's namespace is always written (attributes never inherit the class namespace)", ok, at=fm, construct="attribute namespace explicit",
            msg="a qualified attribute in the class's own namespace is emitted without `namespace`: the runtime binds it unqualified and rejects / mis-writes t:lang=\"en\"")
     fc = ctx.repo.func(f"{FIL}.field_choices")
-    ctx.ob("generator: a choice's namespace is omitted only when equal to the parent namespace (choices are elements / wildcards)", A("_=_.namespaceif_!=_.namespaceelseNone") in asrc(fc), at=fc, construct="choice namespace", msg="choice namespace rule changed")
+    gc = build_cfg(fc.node)
+    ok = False
+    for n in gc.stmts():
+        if n.ast is None or n.kind != "stmt":
+            continue
+        for dct in [x for x in ast.walk(n.ast) if isinstance(x, ast.Dict)]:
+            for k, v in zip(dct.keys, dct.values):
+                if isinstance(k, ast.Constant) and k.value == "namespace":
+                    leaves = [(L(fc, leaf), flow_conditions(fc, n, chain)) for leaf, chain in flows(fc, n, v)]
+                    differs = lambda conds, want: any(("_.namespace" in t and "!=" in t and pol == want) or ("_.namespace" in t and "==" in t and "!=" not in t and pol != want) for t, pol in conds)  # noqa: E731
+                    ok = {x for x, _ in leaves} == {"_.namespace", "None"} and all(differs(c, x == "_.namespace") for x, c in leaves)
+    ctx.ob("generator: a choice's namespace is omitted only when equal to the parent namespace (choices are elements / wildcards)", ok, at=fc, construct="choice namespace", msg="choice namespace rule changed")
     # substitution groups are followed transitively
     cs = ctx.repo.func("xsdata.codegen.handlers.add_attribute_substitutions:AddAttributeSubstitutions.create_substitution")
     ats = [c for c in calls_in(cs.node) if isinstance(c.func, ast.Name) and c.func.id == "AttrType"]
